@@ -374,3 +374,121 @@ Definition verdict_greek (c : kcase) : list nat :=
   (* targets pairwise different and fresh (hypotheses of rename_fresh_preserves) *)
   tag (nodup_p (normp (map snd (k_impl c))) && Nat.eqb (length (normp (map snd (k_impl c)))) (length (normp (map fst (k_impl c))))) 252 ++
   tag (negb (interp_nonempty (map snd (k_impl c)) (diffp (k_names c ++ all_ssyms (k_prog c)) (map fst (k_impl c))))) 253.
+
+
+(* ---- convert_model round trip and split / create_joint_distribution on the component level ---- *)
+Definition oqeq (a b : option Q) : bool :=
+  match a, b with Some x, Some y => Qeq_bool x y | None, None => true | _, _ => false end.
+Definition param_eqb (a b : id * Q * bool) : bool :=
+  Pos.eqb (fst (fst a)) (fst (fst b)) && Qeq_bool (snd (fst a)) (snd (fst b)) && Bool.eqb (snd a) (snd b).
+Definition rdist_eqb (a b : rdist) : bool :=
+  match a, b with
+  | DNormal n v, DNormal n' v' => Pos.eqb n n' && setp_eqb v v'
+  | DJoint ns m, DJoint ns' m' =>
+      list_eqb Pos.eqb ns ns' && list_eqb (list_eqb setp_eqb) m m'
+  | _, _ => false
+  end.
+(* statements: the same list (by evaluation); when the lists differ (update_source may add a no-op such as
+   ALAG1 = ALAG1) the same defined symbols with the same values in both directions (info tag 2000 + t0) *)
+Definition stmts_tags (envs : list env) (p p' : list stm) (t0 : nat) : list nat :=
+  match stms_agree 2 envs p p' with
+  | 0 => []
+  | 2 => [1000 + t0]
+  | _ => if setp_eqb (all_sdefs p) (all_sdefs p') && preserved envs (normp (all_sdefs p)) p p'
+            && preserved envs (normp (all_sdefs p)) p' p
+         then [2000 + t0] else [t0]
+  end.
+Definition pmodel_tags (envs : list env) (m m' : pmodel) (t0 : nat) : list nat :=
+  stmts_tags envs (pm_stmts m) (pm_stmts m') t0 ++
+  tag (list_eqb param_eqb (pm_params m) (pm_params m')) (t0 + 1) ++
+  tag (list_eqb rdist_eqb (pm_rvs m) (pm_rvs m')) (t0 + 2) ++
+  tag (list_eqb Pos.eqb (pm_dvs m) (pm_dvs m')) (t0 + 3).
+
+Record ccase := mkC {
+  cc_before : pmodel;
+  cc_generic : obs pmodel;           (* convert_model(m, 'generic') *)
+  cc_back : obs pmodel;              (* convert_model(convert_model(m, 'generic'), 'nonmem'); OOther = not attempted *)
+  cc_envs : list (list (id * Q))
+}.
+Definition verdict_conv (c : ccase) : list nat :=
+  let envs := map env_of (cc_envs c) in
+  match cc_generic c with
+  | OOk g => pmodel_tags envs (convert_generic (cc_before c)) g 70
+  | _ => [74]
+  end ++
+  match cc_back c with
+  | OOk b => pmodel_tags envs (convert_nonmem (convert_generic (cc_before c))) b 75
+  | OValueError => [79]
+  | _ => []
+  end.
+
+Record jcase := mkJ {
+  j_before : pmodel;
+  j_inds : list id;                  (* the etas handed to split_joint_distribution *)
+  j_split : obs pmodel;              (* split_joint_distribution(m, inds) *)
+  j_created : obs pmodel;            (* create_joint_distribution(m, inds); OValueError = documented refusal *)
+  j_envs : list (list (id * Q))
+}.
+Definition verdict_joint (c : jcase) : list nat :=
+  let envs := map env_of (j_envs c) in
+  match j_split c with
+  | OOk s => pmodel_tags envs (split_joint (j_inds c) (j_before c)) s 90
+  | _ => [94]
+  end ++
+  match j_created c with
+  | OOk s => tag3 (stms_agree 2 envs (pm_stmts (j_before c)) (pm_stmts s)) 95 1095 ++
+             tag (same_structure (j_before c) s) 96
+  | OValueError => []
+  | _ => [97]
+  end.
+
+
+(* ---- oracle-only (validation): solve_ode_system on one-compartment models against the documented closed forms
+   bolus:  A_c(t) = D exp(-k t)                      oral:  A_d(t) = D exp(-ka t),
+                                                            A_c(t) = D ka/(ka - k) (exp(-k t) - exp(-ka t))
+   evaluated exactly at points where the exp arguments are integers (exp |-> 2^n respects the algebra used). *)
+Record ocase := mkO {
+  o_after : list stm;                 (* solve_ode_system(model).statements *)
+  o_ke : expr;                        (* rate CENTRAL -> output *)
+  o_ka : option expr;                 (* rate DEPOT -> CENTRAL *)
+  o_dose : id; o_t : id;
+  o_ac : id; o_ad : option id;        (* A_CENTRAL(t), A_DEPOT(t) *)
+  o_envs : list (list (id * Q))
+}.
+
+Definition q_exp (x : Q) : option Q := std_fi1 F_EXP x.
+Local Open Scope Q_scope.
+Definition cf_bolus (D k t : Q) : option Q :=
+  match q_exp (Qred (- (k * t))) with Some e => Some (Qred (D * e)) | None => None end.
+Definition cf_oral (D k ka t : Q) : option Q :=
+  if Qeq_bool ka k then None else
+  match q_exp (Qred (- (k * t))), q_exp (Qred (- (ka * t))) with
+  | Some e1, Some e2 => Some (Qred (D * ka / (ka - k) * (e1 - e2)))
+  | _, _ => None
+  end.
+Local Close Scope Q_scope.
+
+Definition closed_form_pairs (c : ocase) : list (option Q * option Q) * list (option Q * option Q) :=
+  let pts := map (fun m => run7 (env_of m) (o_after c)) (o_envs c) in
+  let vals := fun (r : env) =>
+    match r (o_dose c), r (o_t c), eval r std_fi (o_ke c) with
+    | Some D, Some t, Some k =>
+        match o_ka c with
+        | None => ((r (o_ac c), cf_bolus D k t), (None, None))
+        | Some kae =>
+            match eval r std_fi kae with
+            | Some ka => ((r (o_ac c), cf_oral D k ka t),
+                          (match o_ad c with Some a => r a | None => None end, cf_bolus D ka t))
+            | None => ((None, None), (None, None))
+            end
+        end
+    | _, _, _ => ((None, None), (None, None))
+    end in
+  (map (fun r => fst (vals r)) pts, map (fun r => snd (vals r)) pts).
+
+Definition verdict_ode (c : ocase) : list nat :=
+  let '(cen, dep) := closed_form_pairs c in
+  tag (forallb (fun ab => negb (changed (fst ab) (snd ab))) cen) 80 ++
+  tag (forallb (fun ab => negb (changed (fst ab) (snd ab))) dep) 81 ++
+  tag (2 <=? length (filter (fun ab => both_defined (fst ab) (snd ab)) cen)) 1080 ++
+  [2000 + length (filter (fun ab => both_defined (fst ab) (snd ab)) (cen ++ dep))].
